@@ -190,6 +190,27 @@ func (c *cl) quiesce() bool {
 	return ok
 }
 
+// converge waits until every running node reports the same applied index and version.
+func (c *cl) converge(d time.Duration) bool {
+	return qcluster.WaitFor(d, func() bool {
+		var idx, ver uint64
+		first := true
+		for _, n := range c.nodes {
+			if !n.Up {
+				continue
+			}
+			i, _ := n.Raft.VerifFSMState()
+			v := n.Raft.VerifBalloonVersion()
+			if first {
+				idx, ver, first = i, v, false
+			} else if i != idx || v != ver {
+				return false
+			}
+		}
+		return true
+	})
+}
+
 func (c *cl) pathTerms(p map[string]hashing.Digest) trace.Ev {
 	o := trace.Ev{}
 	for k, v := range p {
@@ -477,7 +498,7 @@ func (c *cl) quiesceMaybe() {
 }
 
 // ---- scenario: follower (returning or new) restored by state transfer (C09)
-func (c *cl) scenarioRestore(newNode bool, changeLeader bool) error {
+func (c *cl) scenarioRestore(newNode bool, changeLeader bool, one bool) error {
 	// start 2 nodes (new-node case) or 3
 	if err := c.startNode(1, true, nil); err != nil {
 		return err
@@ -495,16 +516,23 @@ func (c *cl) scenarioRestore(newNode bool, changeLeader bool) error {
 		}
 		qcluster.WaitFor(10*time.Second, func() bool { return len(c.nodes[0].Raft.ClusterInfo().Nodes) == 3 })
 		// some history the follower has seen
-		for i := 0; i < c.rng.Intn(4); i++ {
+		for i := 0; i < c.rng.Intn(4) && !one; i++ {
 			b, s := c.randBulk()
 			c.add(b, s)
 		}
 		c.quiesce()
 		c.stopNode(3)
 	}
-	for i := 0; i < 1+c.rng.Intn(5); i++ {
-		b, s := c.randBulk()
-		c.add(b, s)
+	if one {
+		// boundary: the log holds exactly one event (version 0) when it is compacted
+		if len(c.log) == 0 {
+			c.add([][]byte{c.freshDigest()}, c.rng.Intn(2) == 0)
+		}
+	} else {
+		for i := 0; i < 1+c.rng.Intn(5); i++ {
+			b, s := c.randBulk()
+			c.add(b, s)
+		}
 	}
 	c.quiesce()
 	// force raft snapshots on the running nodes so that their logs are compacted
@@ -525,10 +553,15 @@ func (c *cl) scenarioRestore(newNode bool, changeLeader bool) error {
 			seeds = []string{l.Addr}
 		}
 	}
+	// from here on node 3 is "the follower brought up to date by state transfer" (C09)
+	c.emit(trace.Ev{"a": "rejoin", "n": 3})
 	if err := c.startNode(3, false, seeds); err != nil {
 		return fmt.Errorf("node 3 failed to (re)join: %v", err)
 	}
 	// the restored node must converge ...
+	if !c.converge(60 * time.Second) {
+		c.emit(trace.Ev{"a": "noconverge", "n": 3})
+	}
 	c.checkAll(true)
 	// ... and compute the same digests for later insertions
 	for i := 0; i < 2+c.rng.Intn(3); i++ {
@@ -850,7 +883,7 @@ func clusterDriver(args []string) error {
 				}
 				serr = c.scenarioReplicas(rounds)
 			case "restore":
-				serr = c.scenarioRestore((fi+run)%2 == 1, (fi+run)%4 >= 2)
+				serr = c.scenarioRestore((fi+run)%2 == 1, (fi+run)%4 >= 2, (fi+run)%3 == 0)
 			case "backup":
 				rounds := 10
 				if thorough {
